@@ -29,6 +29,14 @@ CALLEES = {
     "tint": ("def tint(t: Tuple[Qint[2], bool]) -> Qint[2]:\n\treturn t[0] if t[1] else 0", ["Tuple[Qint[2], bool]"], "Qint[2]"),
     "pairf": ("def pairf(x: bool, y: bool) -> Tuple[bool, bool]:\n\treturn (y, x != y)", ["bool", "bool"], "Tuple[bool, bool]"),
     "f": ("def f(f_x: bool, x: bool) -> bool:\n\treturn f_x and not x", ["bool", "bool"], "bool"),          # names made to collide with prefixes
+    # a callee that reassigns its own parameters and reads intermediates afterwards (compression to return bits must be simultaneous)
+    "reas": ("def reas(p: bool, q: bool) -> bool:\n\tt = p ^ q\n\tp = p and q\n\tq = t or p\n\treturn t ^ p ^ q", ["bool", "bool"], "bool"),
+    "reasi": ("def reasi(x: Qint[2], y: Qint[2]) -> Qint[2]:\n\tt = x + y\n\tx = y\n\ty = t\n\treturn x + y", ["Qint[2]", "Qint[2]"], "Qint[2]"),
+    # wide formal (actuals may be narrower), tuple results with multi-bit / nested elements
+    "inc4": ("def inc4(x: Qint[4]) -> Qint[4]:\n\treturn x + 1", ["Qint[4]"], "Qint[4]"),
+    "mix": ("def mix(x: Qint[2], y: bool) -> Tuple[Qint[2], bool]:\n\treturn (x + 1, y)", ["Qint[2]", "bool"], "Tuple[Qint[2], bool]"),
+    "nestt": ("def nestt(x: bool, y: bool) -> Tuple[Tuple[bool, bool], bool]:\n\treturn ((x, y), x ^ y)", ["bool", "bool"], "Tuple[Tuple[bool, bool], bool]"),
+    "swp": ("def swp(t: Qlist[Qint[2], 2]) -> Qlist[Qint[2], 2]:\n\treturn [t[1], t[0]]", ["Qlist[Qint[2], 2]"], "Qlist[Qint[2], 2]"),
 }
 
 CALLERS = [
@@ -78,6 +86,24 @@ CALLERS = [
     (["gtb"], "def c(gtb_b: Qint[2], gtb_a: Qint[2]) -> bool:\n\treturn gtb(gtb_b, gtb_a)"),
     (["neg", "both"], "def c(a: bool, b: bool) -> bool:\n\treturn both(neg(a), neg(b))"),
     (["neg", "both"], "def c(a: bool, b: bool) -> bool:\n\tx = neg(a)\n\ty = both(x, b)\n\treturn neg(y)"),
+    (["reas"], "def c(a: bool, b: bool) -> bool:\n\treturn reas(a, b)"),
+    (["reas"], "def c(a: bool, b: bool) -> bool:\n\treturn reas(b, a) ^ reas(a, a)"),
+    (["reas"], "def c(p: bool, q: bool) -> bool:\n\treturn reas(q, p)"),
+    (["reasi"], "def c(a: Qint[2], b: Qint[2]) -> Qint[2]:\n\treturn reasi(a, b)"),
+    (["reasi"], "def c(y: Qint[2], x: Qint[2]) -> Qint[2]:\n\treturn reasi(y, x)"),
+    (["inc4"], "def c(a: Qint[2]) -> Qint[4]:\n\treturn inc4(a)"),
+    (["inc4"], "def c(a: bool) -> Qint[4]:\n\treturn inc4(3) if a else inc4(1)"),
+    (["inc4"], "def c(a: Qint[4]) -> Qint[4]:\n\treturn inc4(a)"),
+    (["inc"], "def c(a: Qint[4]) -> Qint[2]:\n\treturn inc(a)"),          # wider actual: rejected, or Python's value
+    (["mix"], "def c(a: Qint[2], b: bool) -> bool:\n\tr = mix(a, b)\n\treturn r[1]"),
+    (["mix"], "def c(a: Qint[2], b: bool) -> Qint[2]:\n\tr = mix(a, b)\n\treturn r[0]"),
+    (["mix"], "def c(a: Qint[2], b: bool) -> Tuple[Qint[2], bool]:\n\treturn mix(a, b)"),
+    (["mix"], "def c(a: Qint[2], b: bool) -> Qint[2]:\n\tr = mix(a, b)\n\treturn r[0] + 1 if r[1] else r[0]"),
+    (["nestt"], "def c(a: bool, b: bool) -> bool:\n\tr = nestt(a, b)\n\treturn r[0][1]"),
+    (["nestt"], "def c(a: bool, b: bool) -> bool:\n\tr = nestt(a, b)\n\treturn r[1]"),
+    (["nestt"], "def c(a: bool, b: bool) -> bool:\n\tr = nestt(b, a)\n\treturn r[0][0] and r[1]"),
+    (["swp"], "def c(a: Qint[2], b: Qint[2]) -> Qint[2]:\n\tr = swp([a, b])\n\treturn r[0]"),
+    (["swp"], "def c(a: Qint[2], b: Qint[2]) -> bool:\n\tr = swp([a, b])\n\treturn r[1] == a"),
     (["both"], "def c(a: bool, b: bool) -> bool:\n\treturn both(a)"),          # arity mismatch: must raise
 ]
 
@@ -228,6 +254,41 @@ def job_logicfun(_):
     return [res(name, PROVED, strength="bounded", backend="native")]
 
 
+def job_reuse(a):
+    """The SAME definition object handed to several callers, one after the other (QlassF objects through qlassf(defs=...), the same LogicFun
+    tuple through QlassF.from_function(defs=...), and the same function oraclized twice): every caller gets what a fresh definition gives."""
+    kind, profile = a
+    from qlasskit import qlassf
+    from qlasskit.qlassfun import QlassF
+    prof = bounded.profiles()[profile]
+    name = f"C07.definition-reused[{kind},{profile}]"
+    base = dict(strength="bounded", backend="fingerprint", instance_key=f"reuse:{kind}")
+    callers = ["def c1(a: Qint[2], b: Qint[2]) -> Qint[2]:\n\treturn addm(a, b)", "def c2(y: Qint[2], x: Qint[2]) -> Qint[2]:\n\treturn addm(y, x) + 1",
+               "def c3(a: Qint[2]) -> Qint[2]:\n\treturn addm(a, a)"]
+    mk = lambda: qlassf(CALLEES["addm"][0], to_compile=False, bool_optimizer=prof)  # noqa: E731
+    try:
+        if kind == "qlassf-defs":
+            shared = mk()
+            got = [fingerprint(qlassf(c, defs=[shared], to_compile=False, bool_optimizer=prof)) for c in callers]
+            exp = [fingerprint(qlassf(c, defs=[mk()], to_compile=False, bool_optimizer=prof)) for c in callers]
+        elif kind == "logicfun-tuple":
+            lf = mk().to_logicfun()
+            got = [fingerprint(QlassF.from_function(c, defs=[lf], to_compile=False, bool_optimizer=prof)) for c in callers]
+            exp = [fingerprint(QlassF.from_function(c, defs=[mk().to_logicfun()], to_compile=False, bool_optimizer=prof)) for c in callers]
+        else:
+            from qlasskit.algorithms.qalgorithm import oraclize
+            shared = qlassf(CALLEES["inc"][0], to_compile=False, bool_optimizer=prof)
+            got = [fingerprint(oraclize(shared, e)) for e in (1, 2, 1)]
+            exp = [fingerprint(oraclize(qlassf(CALLEES["inc"][0], to_compile=False, bool_optimizer=prof), e)) for e in (1, 2, 1)]
+    except Exception as ex:  # noqa
+        return [res(name, REFUTED, replayed=True, replay=dict(kind=kind, observed=f"raises {type(ex).__name__}: {ex}"[:300], expected="every use succeeds"), **base)]
+    bad = [i for i in range(len(got)) if got[i] != exp[i]]
+    if bad:
+        i = bad[0]
+        return [res(name, REFUTED, replayed=True, replay=dict(kind=kind, use_number=i + 1, observed=str(got[i])[:500], with_a_fresh_definition=str(exp[i])[:500]), **base)]
+    return [res(name, PROVED, uses=len(got), **base)]
+
+
 def _dispatch(j):
     f, a = j
     return f(a)
@@ -248,6 +309,9 @@ def run(tier, only=None):
         for e in els:
             jobs.append((job_oraclize, (cal, e)))
     jobs.append((job_logicfun, None))
+    for kind in ("qlassf-defs", "logicfun-tuple", "oraclize-twice"):
+        for profile in ("default", "fast"):
+            jobs.append((job_reuse, (kind, profile)))
     rep.add(run_pool(_dispatch, jobs))
     rep.under_contract(Env.bind_function, translate_expression, translate_statement, QlassF.to_logicfun, oraclize)
     rep.rule = "one evaluation = one (callee set, caller, passing mode, optimizer profile) decided on all inputs; distinct = distinct caller text x mode; non-trivial = the reference is defined on at least one row"
